@@ -251,8 +251,14 @@ func c19IsNumeric(k string) bool {
 	return c19IsFloat(k) || c19Is64(k) || k == "int32" || k == "sint32" || k == "sfixed32" || k == "uint32" || k == "fixed32"
 }
 
-// c19Getter is the rule group the generator reads for a field kind (validation.go).
-func c19Getter(k string) string {
+// c19Getter is the rule group the generator reads for a field kind (validation.go): the kind's own
+// group since /repo 3ffb0a3.
+func c19Getter(k string) string { return k }
+
+// c19ForeignGroup is the group the generator read before 3ffb0a3 for the integer kinds other than
+// int32 / int64 — a group protovalidate refuses on such a field; used to declare rules the
+// generator must now IGNORE (correspondence only).
+func c19ForeignGroup(k string) string {
 	switch {
 	case k == "float" || k == "double":
 		return k
@@ -370,8 +376,8 @@ func c19GenNumeric(r *gen.R, name string, num int32) *c19Field {
 	}
 	// one time in eight declare the rules in the group the generator reads instead of the
 	// field's own (protovalidate refuses such rules: correspondence only)
-	if !c19IsFloat(k) && c19Getter(k) != k && r.P(1, 8) {
-		fd.Group = c19Getter(k)
+	if !c19IsFloat(k) && c19ForeignGroup(k) != k && r.P(1, 8) {
+		fd.Group = c19ForeignGroup(k)
 	}
 	shapes := []string{"gte", "lte", "gte+lte", "gte+lte", "const", "in", "gte+in", "gt", "lt", "gt+lte", "gte+lt", "const", "in", "gte+lte"}
 	fd.Shape = gen.Pick(r, shapes)
